@@ -6,7 +6,8 @@
    GetSystemErrorCode and all constants are regenerated from the Go source). *)
 From Coq Require Import ZArith List Bool.
 From Verif Require Import Base.Wrap Gen.GenConsts Gen.GenFrame Gen.GenHealthIdle Spec.IdleHealthSpec
-  Model.Health Model.Idle Model.IdleHealthSys Proofs.IdleP Proofs.HealthP.
+  Spec.IdleHealthHist Model.Health Model.Idle Model.IdleHealthSys Model.IdleSweepFine
+  Proofs.IdleP Proofs.HealthP Proofs.IdleHealthSysP Proofs.IdleSweepFineP.
 Import ListNotations.
 Local Open Scope Z_scope.
 
@@ -176,3 +177,263 @@ Proof.
   split; [reflexivity|]. split; [vm_compute; reflexivity|].
   apply (proj1 (health_loop_closes_iff 5 _ 9 ltac:(discriminate))). vm_compute. reflexivity.
 Qed.
+
+(* ==== second part: history-level health theorems on the whole system =========================
+   Vocabulary: Spec/IdleHealthHist.v (ping_outcomes / ping_inflight: the health-check pings of a
+   connection as the history shows them; health_closes_now; ping traffic; erase_pings, erase_pings_of). *)
+
+(* For every history h (all interleavings of sweep ticks, frames, calls, closes, pings and ping
+   outcomes over any number of connections), FailuresToClose >= 1, health checks enabled: an
+   Active connection leaves the Active state at a ping outcome o IF AND ONLY IF one of its pings
+   is in flight and o completes the F-th consecutive failure since the last success of the pings
+   the history shows, with no stop outcome and no earlier such run (health_closes_at at the index
+   of o).  Never earlier, never later. *)
+Theorem C19_health_history : forall cf t0 h id c o,
+  let F := ho_failures (cf_health cf) in
+  1 <= F -> ho_enabled (cf_health cf) = true ->
+  lookup id (ch_conns (run cf t0 h)) = Some c -> is_active c = true ->
+  exists c', lookup id (ch_conns (step cf (run cf t0 h) (EPingEnd id o))) = Some c' /\
+    (is_active c' = false <->
+     ping_inflight id h = true /\ health_closes_now (Z.to_nat F) (ping_outcomes id h) o).
+Proof. exact sys_health_iff. Qed.
+Print Assumptions C19_health_history.
+
+(* The decision itself, whatever the state of the connection (also while it drains after a
+   Close): whenever the health goroutine waits for its ping, the loop body calls close at the
+   outcome iff health_closes_now over the history's pings. *)
+Theorem C19_health_decision : forall cf t0 h id c o,
+  let F := ho_failures (cf_health cf) in
+  1 <= F -> lookup id (ch_conns (run cf t0 h)) = Some c -> k_hstatus c = 2 ->
+  ping_inflight id h = true /\
+  (snd (health_iter F o (k_health c)) = true <-> health_closes_now (Z.to_nat F) (ping_outcomes id h) o).
+Proof. exact sys_health_decision. Qed.
+Print Assumptions C19_health_decision.
+
+(* Nothing else closes: along every history an Active connection stays Active at every event
+   except a sweep, an application Close of it, the end of one of its pings, or a ping of it that
+   cannot be sent (connection error). *)
+Theorem C19_closed_only_by : forall cf t0 h id c e,
+  lookup id (ch_conns (run cf t0 h)) = Some c -> is_active c = true ->
+  (forall c', lookup id (ch_conns (step cf (run cf t0 h) e)) = Some c' -> is_active c' = true) \/
+  e = ETick \/ e = EClose id \/ (exists o, e = EPingEnd id o) \/ e = EPingStart id false.
+Proof. exact sys_active_left_only_by. Qed.
+Print Assumptions C19_closed_only_by.
+
+(* Ping / health traffic is never call activity: erasing ALL of it from a history (health-check
+   events, ping request and ping response frames in both directions) changes neither the clock
+   nor the last call activity of any connection (so, by C19_stamp, no activity stamp) ... *)
+Theorem C19_pings_no_activity : forall h id t0,
+  clock t0 (erase_pings h) = clock t0 h /\
+  last_call_activity id t0 None (erase_pings h) = last_call_activity id t0 None h.
+Proof. intros h id t0. split; [apply erase_pings_clock|apply erase_pings_lca]. Qed.
+Print Assumptions C19_pings_no_activity.
+
+(* ... and in the model each such event leaves both stamps of every connection as they were. *)
+Theorem C19_pings_no_stamp : forall cf s e id, is_ping_traffic e = true ->
+  option_map stamps (lookup id (ch_conns (step cf s e))) = option_map stamps (lookup id (ch_conns s)).
+Proof. exact ping_traffic_stamps. Qed.
+Print Assumptions C19_pings_no_stamp.
+
+(* The ping traffic of one connection (its health checks, sendable or not, with any outcomes, and
+   its ping frames) never influences another connection: erasing it from the history leaves the
+   clock and the complete state of every other connection unchanged, hence also the decision of
+   the next sweep on it and what that sweep makes of it. *)
+Theorem C19_pings_noninterference : forall cf t0 h id id', id <> id' ->
+  let s1 := run cf t0 (erase_pings_of id' h) in
+  let s2 := run cf t0 h in
+  ch_now s1 = ch_now s2 /\ lookup id (ch_conns s1) = lookup id (ch_conns s2) /\
+  (sweep_closes cf s1 id <-> sweep_closes cf s2 id) /\
+  lookup id (ch_conns (step cf s1 ETick)) = lookup id (ch_conns (step cf s2 ETick)).
+Proof.
+  intros cf t0 h id id' Hne s1 s2.
+  destruct (pings_of_noninterference cf t0 h id id' Hne) as [H1 H2].
+  destruct (pings_of_sweep_noninterference cf t0 h id id' Hne) as [H3 H4]. auto.
+Qed.
+Print Assumptions C19_pings_noninterference.
+
+(* ==== third part: the sweep as a thread of atomic actions (Model/IdleSweepFine.v) =============== *)
+
+(* The decisions of the sweep on one connection as go2v translates them from the Go source
+   (Connection.IsActive, Connection.hasPendingCalls, Relayer.canClose, lastActivityTime,
+   idleSweep.isIdle) are the ones of the hand model. *)
+Theorem C19_gen_decisions : forall now mi c,
+  connIsActive (k_state c) = is_active c /\
+  relayCanClose (relay_is_nil c) (relay_pending c) = relay_can_close c /\
+  hasPendingCalls (k_inb c) (k_outb c) (relayCanClose (relay_is_nil c) (relay_pending c)) = has_pending_calls c /\
+  lastActivityTime (k_lr c) (k_lw c) = last_activity c /\
+  sweepIsIdle (time_sub now (lastActivityTime (k_lr c) (k_lw c))) mi = idle_candidate now mi c.
+Proof.
+  intros now mi c. split; [apply gen_is_active|]. split; [apply gen_relay_can_close|].
+  split; [apply gen_has_pending_calls|]. split; [apply gen_last_activity|apply gen_fine_idle].
+Qed.
+Print Assumptions C19_gen_decisions.
+
+(* C19_stamp along every interleaving of the sweep's atomic actions with the other events. *)
+Theorem C19_fine_stamp : forall fx cf t0 ls st id, clock_ok t0 (evs_of ls) ->
+  frun fx cf (finit t0) ls = Some st ->
+  match lookup id (ch_conns (f_ch st)) with
+  | Some c => last_call_activity id t0 None (evs_of ls) = Some (Z.max (k_lr c) (k_lw c))
+  | None => last_call_activity id t0 None (evs_of ls) = None
+  end.
+Proof. exact fine_stamp. Qed.
+Print Assumptions C19_fine_stamp.
+
+(* C19_sweep_iff under interleaving, for a connection no other goroutine touches while the sweep
+   runs: one whole sweep (FBegin ... back to idle), interleaved in any way with events on OTHER
+   connections and clock advances, closes connection id if and only if it should be closed at
+   the clock value the sweep started with; it is then what Connection.close makes of it, else
+   unchanged.  (Both code versions.) *)
+Theorem C19_fine_sweep_iff : forall fx cf st0 seg st id c,
+  f_pc st0 = SIdle -> chan_wf (f_ch st0) -> min_duration < cf_max_idle cf <= max_duration ->
+  lookup id (ch_conns (f_ch st0)) = Some c ->
+  ~ In FBegin seg -> (forall e, In (FEv e) seg -> ev_conn e <> Some id) ->
+  frun fx cf st0 (FBegin :: seg) = Some st -> f_pc st = SIdle ->
+  let now := ch_now (f_ch st0) in
+  exists c', lookup id (ch_conns (f_ch st)) = Some c' /\
+    ((is_active c = true /\ is_active c' = false) <-> should_close now (cf_max_idle cf) c) /\
+    (should_close now (cf_max_idle cf) c -> c' = conn_close c) /\
+    (~ should_close now (cf_max_idle cf) c -> c' = c).
+Proof. exact fine_quiescent_iff. Qed.
+Print Assumptions C19_fine_sweep_iff.
+
+(* Without any event of another goroutine the fine sweep is the atomic sweep of Model/Idle.v. *)
+Theorem C19_fine_atomic : forall fx cf st0 seg st,
+  f_pc st0 = SIdle -> chan_wf (f_ch st0) -> ~ In FBegin seg -> (forall e, ~ In (FEv e) seg) ->
+  frun fx cf st0 (FBegin :: seg) = Some st -> f_pc st = SIdle ->
+  forall id, lookup id (ch_conns (f_ch st)) = lookup id (ch_conns (sweep (cf_max_idle cf) (f_ch st0))).
+Proof. exact fine_atomic_refines. Qed.
+Print Assumptions C19_fine_atomic.
+
+(* The weakest correct "only if" for a connection that IS touched during the sweep: whenever
+   the poller is about to call close on connection id, the interleaving so far is
+      pb ++ FBegin :: tl ++ FStep :: e1 ++ FStep :: e2 ++ FStep :: e3 ++ FStep :: e4 ++ FStep :: e5
+   (e1..e5 events of other goroutines only, no other sweep begun after pb), the sweep's clock
+   value is the clock after pb, and: before e1 the connection was Active, before e2 it had no
+   inbound call, before e3 no outbound call, before e4 no relayed call, before e5 -- with the
+   re-check of the fix, fx = true -- it was idle for MaxIdleTime against that clock value. *)
+Theorem C19_fine_close_only_if : forall fx cf t0 ls st now id rest,
+  frun fx cf (finit t0) ls = Some st -> f_pc st = SClose now id rest ->
+  exists pb tl e1 e2 e3 e4 e5,
+    let p1 := pb ++ FBegin :: tl in
+    let p2 := p1 ++ FStep :: e1 in
+    let p3 := p2 ++ FStep :: e2 in
+    let p4 := p3 ++ FStep :: e3 in
+    let p5 := p4 ++ FStep :: e4 in
+    ls = p5 ++ FStep :: e5 /\ ~ In FBegin tl /\ now = clock t0 (evs_of pb) /\
+    env_only e1 /\ env_only e2 /\ env_only e3 /\ env_only e4 /\ env_only e5 /\
+    conn_at fx cf t0 p1 id (fun c => is_active c = true) /\
+    conn_at fx cf t0 p2 id (fun c => (k_inb c >? 0) = false) /\
+    conn_at fx cf t0 p3 id (fun c => (k_outb c >? 0) = false) /\
+    conn_at fx cf t0 p4 id (fun c => relay_can_close c = true) /\
+    conn_at fx cf t0 p5 id (fun c => fx = true -> idle_candidate now (cf_max_idle cf) c = true).
+Proof. exact fine_close_chain. Qed.
+Print Assumptions C19_fine_close_only_if.
+
+(* ... and the connection was collected by the first loop of this same sweep: the interleaving
+   is pb ++ FBegin :: tl0 ++ FLook id :: tl1 with no sweep begun after pb, and just before that
+   FLook the connection was idle for MaxIdleTime against the sweep's clock value.  (Both code
+   versions; without the re-check it is all that is known about the idleness of a connection
+   being closed.) *)
+Theorem C19_fine_close_looked : forall fx cf t0 ls st now id rest,
+  frun fx cf (finit t0) ls = Some st -> f_pc st = SClose now id rest ->
+  exists pb tl0 tl1, ls = pb ++ FBegin :: tl0 ++ FLook id :: tl1 /\ ~ In FBegin tl0 /\ ~ In FBegin tl1 /\
+    now = clock t0 (evs_of pb) /\
+    conn_at fx cf t0 (pb ++ FBegin :: tl0) id (fun c => idle_candidate now (cf_max_idle cf) c = true).
+Proof. exact fine_close_looked. Qed.
+Print Assumptions C19_fine_close_looked.
+
+(* In terms of the history (code with the re-check, monotone stub clock): when the poller is
+   about to close connection id, no call frame was sent or received on it between
+   (clock at the start of the sweep - MaxIdleTime) and the instant of the re-check, frames
+   arriving DURING the sweep included. *)
+Theorem C19_fine_close_history : forall cf t0 ls st now id rest,
+  clock_ok t0 (evs_of ls) -> min_duration < cf_max_idle cf <= max_duration ->
+  frun true cf (finit t0) ls = Some st -> f_pc st = SClose now id rest ->
+  exists pb mid e5,
+    ls = pb ++ FBegin :: mid ++ FStep :: e5 /\ ~ In FBegin mid /\ env_only e5 /\
+    now = clock t0 (evs_of pb) /\
+    exists la, last_call_activity id t0 None (evs_of (pb ++ FBegin :: mid)) = Some la /\ now - la >= cf_max_idle cf.
+Proof. exact fine_close_history. Qed.
+Print Assumptions C19_fine_close_history.
+
+(* ... and the whole condition of the statement at ONE instant: if the close takes effect (the
+   connection is still Active) and no call started on the connection between the poller's read
+   of the inbound count and its re-check, then at the instant of the re-check the connection
+   was tracked, Active, without pending inbound, outbound or relayed call, and idle for
+   MaxIdleTime against the sweep's clock value. *)
+Theorem C19_fine_close_instant : forall cf t0 ls st now id rest c,
+  min_duration < cf_max_idle cf <= max_duration ->
+  frun true cf (finit t0) ls = Some st -> f_pc st = SClose now id rest ->
+  lookup id (ch_conns (f_ch st)) = Some c -> is_active c = true ->
+  exists pb tl e1 e2 e3 e4 e5,
+    let p2 := (pb ++ FBegin :: tl ++ FStep :: e1) in
+    let p5 := p2 ++ FStep :: e2 ++ FStep :: e3 ++ FStep :: e4 in
+    ls = p5 ++ FStep :: e5 /\ ~ In FBegin tl /\ now = clock t0 (evs_of pb) /\
+    env_only e1 /\ env_only e2 /\ env_only e3 /\ env_only e4 /\ env_only e5 /\
+    ((forall a, In a (e2 ++ e3 ++ e4) -> call_start_on id a = false) ->
+     conn_at true cf t0 p5 id (fun c5 => should_close now (cf_max_idle cf) c5)).
+Proof. exact fine_close_instant. Qed.
+Print Assumptions C19_fine_close_instant.
+
+(* The code WITHOUT the re-check (fx = false, the tree before the fix "idle sweep re-checks that
+   a collected connection is still idle before closing it") violates the "only if" at every
+   instant of the sweep: an outbound call is pending on a connection that is otherwise idle when
+   the first loop collects it, its response arrives between the two loops, and the second loop
+   closes the connection -- although from the tick to the return of the sweep there is no
+   instant at which it was Active, without pending call and idle for MaxIdleTime. *)
+Theorem C19_fine_unpatched_refuted :
+  let ls := refute_pre ++ FBegin :: refute_sweep in
+  clock_ok 0 (evs_of ls) /\
+  conn_sat false refute_cf 0 refute_pre 0 is_active = true /\
+  conn_sat false refute_cf 0 ls 0 (fun c => negb (is_active c)) = true /\
+  (exists st, frun false refute_cf (finit 0) ls = Some st /\ f_pc st = SIdle) /\
+  forall k s c, (k <= length refute_sweep)%nat ->
+    frun false refute_cf (finit 0) (refute_pre ++ FBegin :: firstn k refute_sweep) = Some s ->
+    lookup 0 (ch_conns (f_ch s)) = Some c ->
+    ~ should_close (clock 0 (evs_of refute_pre)) (cf_max_idle refute_cf) c.
+Proof. exact fine_unpatched_refuted. Qed.
+Print Assumptions C19_fine_unpatched_refuted.
+
+(* ---- non-vacuity of the second and third parts ---- *)
+
+(* two connections, FailuresToClose 2: connection 0 fails, succeeds, fails, fails -> closed at
+   the 4th outcome and not at the 3rd; connection 1's pings and a sweep in between change nothing *)
+Definition ex_cf2 : config :=
+  {| cf_idle_interval := 30; cf_max_idle := 180;
+     cf_health := ho_with_defaults {| ho_interval := 1; ho_timeout := 0; ho_failures := 2 |} |}.
+Example C19_example_health_history :
+  let h := [ENewConn 0 false; ENewConn 1 false; EPingStart 0 true; EPingEnd 0 PFail; EPingStart 1 true; ETick;
+            EPingStart 0 true; EPingEnd 0 POk; EPingEnd 1 PFail; EPingStart 0 true; EPingEnd 0 PFail; EPingStart 0 true] in
+  ping_outcomes 0 h = [PFail; POk; PFail] /\ ping_inflight 0 h = true /\
+  health_closes_now 2 (ping_outcomes 0 h) PFail /\ ~ health_closes_now 2 (ping_outcomes 0 h) POk /\
+  (exists c, lookup 0 (ch_conns (run ex_cf2 0 h)) = Some c /\ is_active c = true) /\
+  (exists c, lookup 0 (ch_conns (run ex_cf2 0 (h ++ [EPingEnd 0 PFail]))) = Some c /\ is_active c = false) /\
+  erase_pings_of 1 h = [ENewConn 0 false; ENewConn 1 false; EPingStart 0 true; EPingEnd 0 PFail; ETick;
+            EPingStart 0 true; EPingEnd 0 POk; EPingStart 0 true; EPingEnd 0 PFail; EPingStart 0 true].
+Proof.
+  cbv zeta. split; [vm_compute; reflexivity|]. split; [vm_compute; reflexivity|].
+  split. { unfold health_closes_now. apply (proj1 (health_loop_closes_iff 2 _ 3 ltac:(discriminate))). vm_compute. reflexivity. }
+  split. { unfold health_closes_now. intros H. apply (proj2 (health_loop_closes_iff 2 _ 3 ltac:(discriminate))) in H. vm_compute in H. discriminate. }
+  split; [eexists; split; vm_compute; reflexivity|]. split; [eexists; split; vm_compute; reflexivity|].
+  vm_compute. reflexivity.
+Qed.
+
+(* the interleaving of C19_fine_unpatched_refuted on the code with the re-check: the connection
+   stays open and the sweep returns *)
+Example C19_example_fine_patched :
+  let ls := refute_pre ++ FBegin :: [FLock; FLook 0; FStep; FEv (ERead 0 4); FEv (EPend 0 1 (-1)); FStep; FStep; FStep; FStep; FStep; FStep] in
+  conn_sat true refute_cf 0 ls 0 is_active = true /\
+  exists st, frun true refute_cf (finit 0) ls = Some st /\ f_pc st = SIdle.
+Proof. exact fine_patched_example. Qed.
+
+(* a sweep over two idle connections interleaved with a call that comes and goes on the second
+   one after it was collected: the first is closed, the second is not (fx = true) *)
+Example C19_example_fine_two :
+  let ls := [FEv (ENewConn 0 false); FEv (ENewConn 1 false); FEv (EAdvance 200); FBegin; FLock; FLook 1; FLook 0; FStep;
+             FStep; FStep; FStep; FStep; FStep;
+             FEv (ERead 0 3); FEv (EPend 0 0 1); FEv (EWrite 0 4); FEv (EPend 0 0 (-1));
+             FStep; FStep; FStep; FStep; FStep; FStep; FStep] in
+  conn_sat true refute_cf 0 ls 1 (fun c => negb (is_active c)) = true /\
+  conn_sat true refute_cf 0 ls 0 is_active = true /\
+  conn_sat false refute_cf 0 (ls ++ [FStep]) 0 (fun c => negb (is_active c)) = true.
+Proof. vm_compute. repeat split. Qed.
